@@ -847,11 +847,13 @@ theorem tS_recursion {p init step : Ast} (h0 : a.kid 0 = some p) (h1 : a.kid 1 =
       · rename_i hf; obtain ⟨cond, hk2, wc⟩ := hc hf
         exact t0_visitChild hv hd hk2 wc (Or.inr rfl)
       · exact t0_pure _ trivial
-    apply t0_bind hcond; intro _ _
-    apply t0_bind (t0_endScope _); intro _ _
     split
     · exact t0_kidErr hi _ _
-    · exact t0_setCur _ (isTy_ty _)
+    · apply t0_bind hcond; intro _ _
+      apply t0_bind (t0_endScope _); intro _ _
+      split
+      · exact t0_kidErr hi _ _
+      · exact t0_setCur _ (isTy_ty _)
 
 /-! ### calls -/
 
